@@ -86,8 +86,9 @@ def main(tier, replay=None):
         for et, vals in (("Int", [0, 3, 7, 11]), ("String", [b"", b"x", b"xy", b"\xfe"]), ("Probe", [0, 1, 2, 3])):
             if kind == "Tuple" and et == "Probe":
                 continue
+            badk = bad + (["refuse_push", "refuse_pushat", "refuse_set"] if et == "Probe" else [])
             cs.run(seqgen.header(et, vals), [seqgen.random_history(rng, kind, 4, nops(), zero_tok=1 if et == "Int" else 0,
-                                                                  bad=bad, p_out=0.25, cross=False) for _ in range(nexec)],
+                                                                  bad=badk, p_out=0.25, cross=False) for _ in range(nexec)],
                    "random/%s/%s" % (kind, et))
     for kind in ("Table", "Tree"):
         WRAP = sorted([55 * i for i in range(6)] + [5 * 11 * 23 * 53 * j - 1 for j in range(1, 5)] + [5 * 11 * 23 * 53 * j for j in (1, 2)])   # homes 0 and last
@@ -95,7 +96,7 @@ def main(tier, replay=None):
                              ("Probe", "Probe", list(range(0, 12 * 55, 55))), ("Int", "Probe", WRAP),
                              ("Odd12", "Int", list(range(0, 12 * 55, 55))), ("Int", "Odd12", list(range(0, 12 * 55, 55)))):
             cm.run(mapgen.header(kt, vt, keys, [7, 8, 9]),
-                   [mapgen.random_history(rng, kind, 12, 3, nops(), p_fail=0.5, with_bad=True) for _ in range(nexec)],
+                   [mapgen.random_history(rng, kind, 12, 3, nops(), p_fail=0.5, with_bad=True, refuse=(vt == "Probe")) for _ in range(nexec)],
                    "random/%s/%s-%s" % (kind, kt, vt))
 
     chk.cov["rule"] = ("an execution = a history of container calls in which invalid arguments of every class are interleaved "
